@@ -171,7 +171,10 @@ def _report_state(g):
 
 
 def mutates_self(body, t, term):
-    """the call hands out `&mut` to something reached through the `self` parameter"""
+    """the call hands out `&mut` to something reached through the `self` parameter
+    (`&mut iterator` arguments of Iterator adapters advance an iterator, not the state)"""
+    if term[1].startswith("std::iter::Iterator::"):
+        return False
     for i in body.mut_args(t):
         if i < len(term[2]) and atoms.mentions_param(term[2][i], "self"):
             return True
